@@ -58,9 +58,9 @@ type RedisScenario struct {
 	Faults   []Fault        `json:"faults,omitempty"`
 	HorizonS int            `json:"horizon_s,omitempty"`
 	// MigStepMs: simulated milliseconds between two steps of a slot migration (0: as fast as the scheduler lets them)
-	MigStepMs int `json:"mig_step_ms,omitempty"`
-	EndStop  bool           `json:"end_stop,omitempty"`  // end the history with Stop (C20)
-	EndClose bool           `json:"end_close,omitempty"` // end the history with every client closing its connection
+	MigStepMs int  `json:"mig_step_ms,omitempty"`
+	EndStop   bool `json:"end_stop,omitempty"`  // end the history with Stop (C20)
+	EndClose  bool `json:"end_close,omitempty"` // end the history with every client closing its connection
 	// Down: nodes that refuse ("refuse") or black-hole ("blackhole") connections from the start
 	Down map[string]string `json:"down,omitempty"`
 	// Probes are connections started once all faults have fired, the proxy is quiescent and SettleMs
@@ -98,16 +98,16 @@ type redisWorld struct {
 	holdProbes    func() bool
 	onProbeStart  func()
 
-	migrations int
-	migSlots   map[int]bool
-	migActive  int
-	migSeq     int
-	crashSteps []int64
+	migrations   int
+	migSlots     map[int]bool
+	migActive    int
+	migSeq       int
+	crashSteps   []int64
 	strategyTask *simhook.Task // the configuration update that changed the read strategy (fault read-strategy)
 	strategyStep int64
-	strategyDone int64 // step at which that update was seen to have returned (0: not yet)
-	crashSlots []map[int]bool // per crash: the slots the crashed master owned, was migrating away or importing
-	crashTimes []time.Time
+	strategyDone int64          // step at which that update was seen to have returned (0: not yet)
+	crashSlots   []map[int]bool // per crash: the slots the crashed master owned, was migrating away or importing
+	crashTimes   []time.Time
 
 	endPhase         int
 	simStart         time.Time
